@@ -249,6 +249,10 @@ def pointwise_global_reconstruction_distortion(
         .predict(X_test)
     )
 
+    # the orthogonal regression pads to the larger of the two feature dimensions
+    n_pad = orthogonal_predictions_Y_test.shape[1] - predictions_Y_test.shape[1]
+    predictions_Y_test = np.pad(predictions_Y_test, [(0, 0), (0, n_pad)])
+
     return np.linalg.norm(predictions_Y_test - orthogonal_predictions_Y_test, axis=1)
 
 
